@@ -1,5 +1,6 @@
 """C04 -- declared forwarding (forwards, forwards_to_*): the reported signature is safe to call."""
-from ..rules_wrappers import (rule_forwards_is_embed_mask, rule_declaration_params_used, rule_forger_protocol, rule_wrapper_hygiene)
+from ..rules_wrappers import (rule_forwards_is_embed_mask, rule_declaration_params_used, rule_forger_protocol, rule_wrapper_hygiene,
+                              rule_descriptor_rebinding)
 from ..rules_escape import rule_chain_order
 
 EXPLANATION = (
@@ -23,3 +24,5 @@ def run(check):
     check.run_rule('C04.R4', lambda c: rule_forger_protocol(c, 'C04.R4'))
     check.run_rule('C04.R4b', lambda c: rule_chain_order(c, 'C04.R4'))
     check.run_rule('C04.R5', lambda c: rule_wrapper_hygiene(c, 'C04.R5'))
+    # bound use of an emulating declaration: the re-bound wrapper keeps the declared forger
+    check.run_rule('C04.R4c', lambda c: rule_descriptor_rebinding(c, 'C04.R4', classes=['specifiers:_ForgerWrapper']))
